@@ -266,7 +266,7 @@ def str_encode_facts(s):
     i = fresh('ue')
     return [utf8_len(t) >= 0,
             ForAll([i], Implies(And(i >= 0, i < utf8_len(t)), And(utf8_at(t, i) >= 0, utf8_at(t, i) < 256)),
-                   patterns=[utf8_at(t, i)])]
+                   patterns=[utf8_at(t, i)] if z3.is_const(t) else [])]
 
 
 # ----------------------------------------------------------------------------- containers / refs
@@ -314,11 +314,12 @@ class Obj:
 
 class SList:
     """list *value*: length term + index -> element closure (elements are values / records)"""
-    __slots__ = ('n', 'at')
+    __slots__ = ('n', 'at', 'base')
 
-    def __init__(self, n, at):
+    def __init__(self, n, at, base=None):
         self.n = iv(n)
         self.at = at
+        self.base = base          # the list value this one is a read-through view of
 
     @staticmethod
     def empty():
@@ -442,8 +443,8 @@ def ite(c, a, b):
         return SBytes(a.kind, If(c, a.n, b.n), lambda i: If(c, a.at(i), b.at(i)))
     if isinstance(a, SStr) and isinstance(b, SStr):
         return SStr(If(c, a.t, b.t))
-    if isinstance(a, Rec) and isinstance(b, Rec) and a.cls is b.cls:
-        return Rec(a.cls, **{k: ite(c, a.f[k], b.f[k]) for k in a.f})
+    if isinstance(a, Rec) and isinstance(b, Rec) and (issubclass(a.cls, b.cls) or issubclass(b.cls, a.cls)):
+        return Rec(b.cls if issubclass(a.cls, b.cls) else a.cls, **{k: ite(c, a.f[k], b.f[k]) for k in a.f if k in b.f})
     if isinstance(a, SOpt) and isinstance(b, SOpt):
         return SOpt(If(c, a.is_none, b.is_none), ite(c, a.val, b.val))
     if a is None and isinstance(b, Rec):
